@@ -19,6 +19,7 @@ type fsEnt struct {
 	id     *sym.Term
 	text   string
 	isFile bool
+	filled bool // a directory put there with content (vrf_fs_put_dir): not empty
 }
 
 type fsFile struct {
@@ -98,6 +99,29 @@ func init() {
 			m.fs[ch].exists = sym.False()
 		}
 		m.event("fs: RemoveAll %s", p)
+		return Iface{}
+	}
+	natives["os.Remove"] = func(m *Machine, c *frame, fn *ssa.Function, a []Value) Value {
+		// removes a file or an EMPTY directory
+		p := m.fsPath(a[0], "os.Remove")
+		e := m.fsGet(p)
+		if !m.branch(e.exists) {
+			return m.errNotExistValue()
+		}
+		if !e.isFile {
+			nonEmpty := e.filled
+			for _, ch := range m.fsChildren(p) {
+				if m.branch(m.fs[ch].exists) {
+					nonEmpty = true
+				}
+			}
+			if nonEmpty {
+				m.event("fs: Remove %s refused: directory not empty", p)
+				return m.newErrorString(sym.Str("remove " + p + ": directory not empty"))
+			}
+		}
+		e.exists = sym.False()
+		m.event("fs: Remove %s", p)
 		return Iface{}
 	}
 	natives["os.Rename"] = func(m *Machine, c *frame, fn *ssa.Function, a []Value) Value {
@@ -245,6 +269,7 @@ func (e *Engine) fsIntrinsic(name string) stubFn {
 		return func(m *Machine, c *frame, fn *ssa.Function, a []Value) Value {
 			ent := m.fsGet(m.fsPath(a[0], name))
 			ent.exists, ent.id = m.term(a[1]), m.term(a[2])
+			ent.filled = true // the native counterpart writes an id file into it
 			return nil
 		}
 	case "vrf_fs_exists":
